@@ -39,6 +39,17 @@ CLAIMED["C06"] = {
     "technique": "contracts on the real templates; per-path VCs by symbolic-scalar execution; forward-mode differentiation + polynomial normal form; interval bound on small-angle paths",
 }
 
+CLAIMED["C07"] = {
+    "text": "Exact proof (polynomial identities over QQ, no transcendental atoms) that Generator(i) is the documented basis for 0<=i<DoF, "
+            "hat = sum t_i E_i, Vee inverts hat, hat(Bracket(a,b)) is the matrix commutator, inner is the Frobenius inner product with "
+            "InnerWeights symmetric positive definite, weightedNorm its norm; the index dispatch of every GeneratorEvaluator::run is put "
+            "under a CBMC code contract covering all 2^32 indices (out-of-range raises).",
+    "note": "Trusted: g++ instantiation over vs::Sym; tracer; sympy ring arithmetic; CBMC 6.11 and the extraction rules of cbmc/generator_index.py "
+            "(case bodies replaced by the index of the static they return). Bundle layouts enumerated, Rn for n in {1,2,3,5,9}.",
+    "technique": "contracts on the real templates discharged by exact polynomial normal form; CBMC code contract (goto-instrument --dfcc --enforce-contract) on the mechanically extracted index switch",
+    "engine": "E1+E3",
+}
+
 NOT_APPLICABLE = {
     "C14": "quantifies over thread schedules; contract verification of one sequential call cannot express or decide data-race freedom (no thread model in any installed deductive back end for this C++ code) - see DESIGN.md section 5",
     "C19": "the oracle is the compiler's accept/reject verdict over a matrix of client programs, not a pre/postcondition of any function - see DESIGN.md section 5",
